@@ -884,7 +884,10 @@ class WCSGroupCatalog(object):
     def recalc_catalog_radec(self):
         """ Recalculate RA and DEC of the sources in the catalog.
         """
-        for k, image in enumerate(self._images):
+        # '_imcat_idx' counts only images with non-empty catalogs
+        # (see create_group_catalog()):
+        nonempty = [image for image in self._images if len(image.catalog)]
+        for k, image in enumerate(nonempty):
 
             idx = (self._catalog['_imcat_idx'] == k)
             if not np.any(idx):
